@@ -173,7 +173,7 @@ const CAP_VALUES: &[usize] = &[0, 1, 8, 64, 1024];
 fn prop(model: &Model, ix: &Index, tape: &[u32], st: &mut Stats) -> Result<(), String> {
     let mut t = Tape::new(tape);
     let c = gen_stream_case(&mut t, model, ix, N_VALUES, CAP_VALUES);
-    let fail_mask = if t.chance(1, 4) { 1u64 << t.below(17) } else { 0 };
+    let fail_mask = if t.chance(1, 4) { 1u64 << t.below(model.spec.decls.len().min(64)) } else { 0 };
     let (o1, a1) = match c.cap {
         0 => run_cap::<0>(fail_mask, &c.stream),
         1 => run_cap::<1>(fail_mask, &c.stream),
